@@ -160,7 +160,8 @@ class kFlowDecomp(pathmodel.AbstractPathModelDAG):
 
         # Check requirements on input graph:
         # Check flow conservation only if there are no edges to ignore
-        satisfies_flow_conservation = gu.check_flow_conservation(G, flow_attr)
+        # (checked on the internal graph: for node-weighted input the flow values live on the expanded node edges)
+        satisfies_flow_conservation = gu.check_flow_conservation(self.G_internal, flow_attr)
         if len(edges_to_ignore_internal) == 0 and not satisfies_flow_conservation:
             utils.logger.error(f"{__name__}: The graph G does not satisfy flow conservation or some edges have missing `flow_attr`. This is an error, unless you passed `edges_to_ignore` to include at least those edges with missing `flow_attr`.")
             raise ValueError("The graph G does not satisfy flow conservation or some edges have missing `flow_attr`. This is an error, unless you passed `edges_to_ignore` to include at least those edges with missing `flow_attr`.")
@@ -207,7 +208,7 @@ class kFlowDecomp(pathmodel.AbstractPathModelDAG):
         
         if self.optimize_with_flow_safe_paths and satisfies_flow_conservation:
             start_time = time.perf_counter()
-            self.optimization_options["external_safe_paths"] = sfd.compute_flow_decomp_safe_paths(G=G, flow_attr=self.flow_attr)
+            self.optimization_options["external_safe_paths"] = sfd.compute_flow_decomp_safe_paths(G=self.G_internal, flow_attr=self.flow_attr)
             self.solve_statistics["flow_safe_paths_time"] = time.perf_counter() - start_time
             # If we optimize with flow safe paths, we need to disable optimizing with safe paths and sequences
             if self.optimization_options.get("optimize_with_safe_paths", False):
@@ -403,6 +404,12 @@ class kFlowDecomp(pathmodel.AbstractPathModelDAG):
                 if gu.max_occurrence(subpath, paths, edge_lengths={(u,v): self.G[u][v].get(self.length_attr, 1) for (u,v) in subpath}) < constraint_length * coverage_fraction:
                     return False
         
+        # The greedy weights are flow values of the input graph: convert them to the requested weight type,
+        # and give up on the greedy solution if that is not possible exactly
+        if any(self.weight_type(w) != w for w in weights):
+            return False
+        weights = [self.weight_type(w) for w in weights]
+
         if len(paths) <= self.k:
             # If paths contains strictly less than self.k paths, 
             # then we add arbitrary paths (i.e. we repeat the first path) with 0 weights to reach self.k paths.
@@ -421,7 +428,7 @@ class kFlowDecomp(pathmodel.AbstractPathModelDAG):
                 self._solution = {
                     "_paths_internal": paths,
                     "paths": self.G_internal.get_condensed_paths(paths),
-                    "weights": self.path_weights_sol,
+                    "weights": weights,
                 }
             self.set_solved()
             self.solve_statistics = {}
